@@ -149,6 +149,22 @@ reg('C19', 'THR+AIO+SEQ',
     'line granularity under the GIL; threading.Lock in falcon.routing.compiled is rebound to a cooperative lock from the harness; a defect that also breaks '
     'the solo run is outside this differential oracle (C01/C02 cover it)', 'DESIGN.md section 5 C19')
 
+reg('C12', 'ENUM+SEQ',
+    'bounded-exhaustive enumeration of JSON documents / form mappings x content types x stacks x chunkings with independent strict decoders; depth-bounded enumeration of get_media/.media call histories with counting handlers',
+    'All depth-1 (thorough depth-2, ~43 500) JSON documents over nasty scalars and 756-834 form mappings are assigned as response media on one stack, sent back '
+    'as a request on either stack under every chunking of the bound, decoded type-exactly; every truncation / re-encoding / empty / whitespace body must give '
+    'the strict decoder\'s value, MediaNotFoundError or MediaMalformedError; all call histories of length <=3 (thorough 4) over get_media(), '
+    'get_media(default_when_empty=..), .media must parse once, never touch the stream again, return the same object / re-raise the same exception.',
+    'special floats excluded by the property; custom dumps/loads not generated', 'DESIGN.md section 5 C12')
+
+reg('C13', 'ENUM',
+    'bounded-exhaustive enumeration of multipart forms (reference encoder) x envelopes x reader chunk sizes x every 1-cut (2-cut) transport split x per-part consumption tuples x limit thresholds x every single-byte edit, against an independent strict decoder and cross-geometry agreement',
+    'Forms of <=2 (thorough 3) parts over tricky contents and boundaries of length 1-70 are parsed by the sync and async parsers under every reader geometry, '
+    'every cut position and all 7^n consumption patterns; parts must equal what was encoded. Limits are probed at threshold-1/threshold/threshold+1. Every '
+    'deletion/substitution/truncation of the base bodies must yield parts or MultipartParseError only, identically across geometries and parsers, under a '
+    'CPU-time watchdog.',
+    'nested multipart/mixed and -charset- fields are not generated', 'DESIGN.md section 5 C13')
+
 PENDING = {}
 
 ALL = ['C%02d' % i for i in range(1, 21)]
